@@ -798,9 +798,57 @@ def to_bexpr(e):
         return '(%s %s %s)' % ('BOr' if e[1] == '|' else 'BAnd', a, b)
     return 'BUnknown'
 
+def alpha_norm(toks, params=()):
+    """token text of a function body with its locally bound names (parameters, `let` bindings, closure parameters,
+    `for` variables) replaced by $0, $1 .. in order of introduction, so that a consistent renaming is not a difference.
+    Occurrences after `.` (fields, methods) and before `::` (paths) are never renamed."""
+    names = {}
+    def bind(n):
+        if n not in names and n not in ('self', 'Self', '_', 'mut', 'ref'): names[n] = '$%d' % len(names)
+    for p in params:
+        p = p.strip()
+        if p.startswith('mut '): p = p[4:].strip()
+        if re.match(r'^[A-Za-z_][A-Za-z0-9_]*$', p): bind(p)
+    toks = list(toks)
+    n = len(toks); i = 0
+    def is_id(t): return t.kind == 'ident' and re.match(r'^[A-Za-z_][A-Za-z0-9_]*$', t.text) is not None
+    while i < n:
+        t = toks[i]
+        if t.text in ('let', 'for') and t.kind == 'ident':
+            j = i + 1; depth = 0
+            stop = '=' if t.text == 'let' else 'in'
+            while j < n and not (depth == 0 and toks[j].text in (stop, ';', ':')):
+                if toks[j].text in '([{': depth += 1
+                elif toks[j].text in ')]}': depth -= 1
+                elif is_id(toks[j]) and toks[j].text not in ('mut', 'ref') and not (j + 1 < n and toks[j + 1].text in ('::', '(', '{')) and toks[j].text[0].islower():
+                    bind(toks[j].text)
+                j += 1
+        elif t.text == '|' and (i == 0 or toks[i - 1].text in ('(', ',', '=', 'move', '{', ';')):
+            j = i + 1
+            while j < n and toks[j].text != '|':
+                if is_id(toks[j]) and toks[j].text not in ('mut', 'ref') and not (j + 1 < n and toks[j + 1].text == '::') and (toks[j - 1].text in ('|', ',', 'mut', '&', '(')):
+                    bind(toks[j].text)
+                j += 1
+        i += 1
+    out = []
+    for k, t in enumerate(toks):
+        if is_id(t) and t.text in names and not (k > 0 and toks[k - 1].text == '.') and not (k + 1 < n and toks[k + 1].text == '::'):
+            out.append(Tok(t.kind, names[t.text], getattr(t, 'line', 0)) if False else _retok(t, names[t.text]))
+        else:
+            out.append(t)
+    return toks_text(out)
+
+def _retok(t, text):
+    import copy
+    t2 = copy.copy(t); t2.text = text
+    return t2
+
 def extract_pointers(src, facts, notes):
     import golden_forms
     PT = dict(forms={}, diffs=[])
+    def fn_params(fn):
+        try: return [pn for pn, ty in parse_fn_sig(fn.header)['params'] if pn != 'self']
+        except ParseError: return []
     for g, lst in golden_forms.GOLDEN.items():
         ok = True
         for ent in lst:
@@ -808,7 +856,8 @@ def extract_pointers(src, facts, notes):
             r = src.find_fns(f, q)
             if len(ent) > 3:      # several impls define this name: the impl header selects one
                 r = [x for x in r if x[1] is not None and ent[3] in toks_text(x[1].header)]
-            if len(r) != 1 or toks_text(r[0][2].body) != txt:
+            # compared up to a consistent renaming of parameters and locals
+            if len(r) != 1 or (toks_text(r[0][2].body) != txt and alpha_norm(r[0][2].body, fn_params(r[0][2])) != alpha_norm(lex(txt), golden_forms.PARAMS.get((f, q) + tuple(ent[3:4]), fn_params(r[0][2])))):
                 ok = False; PT['diffs'].append('%s:%s' % (f, q))
         PT['forms'][g] = ok
     U = dict(tag1='BUnknown', tag2='BUnknown', test_first='BTUnknown', untag1='BUnknown', untag2='BUnknown', arms_ok=False)
